@@ -251,12 +251,29 @@ fn chain_case(s: &mut Suite, what: &str, ca_der: &[u8], issuer_params: Certifica
 	if !oracles {
 		return;
 	}
-	match openssl_chain_ok(leaf.der(), ca_der) {
+	// the validator the C03 theorems are about, on the two real certificates: it must accept, and
+	// its name-chaining clause in particular must hold
+	let o_ok = openssl_chain_ok(leaf.der(), ca_der);
+	let w_ok = webpki_chain_ok(leaf.der(), ca_der);
+	let vline = format!("validate-pair true true {} {} 1750000000 server", hex(ca_der), hex(leaf.der()));
+	let v = s.drv.ask(&vline);
+	if v.starts_with("(ok true") {
+		s.rep.count("spec_validator_accepts");
+	} else if v.starts_with("(ok false") {
+		if v.contains("(names-chain false)") || o_ok == Some(false) || w_ok == Some(false) {
+			s.rep.violate(&format!("C03:spec-validator-chain:{}", tag), "the RFC 5280 path validator does not accept the chain from the issued certificate to its issuer", format!("{}\nleaf={}\n{}\n{}", line, hex(leaf.der()), vline, v));
+		} else {
+			s.rep.disagree("C03:validate-pair", "the specification's path validator rejects a chain that OpenSSL and webpki accept", format!("{}\n{}\n{}", line, vline, v));
+		}
+	} else {
+		s.rep.count("spec_validator_undecodable");
+	}
+	match o_ok {
 		Some(true) => s.rep.count("oracle_openssl_chain_ok"),
 		Some(false) => s.rep.violate(&format!("C03:openssl-chain:{}", tag), "OpenSSL does not build/accept the chain from the issued certificate to its issuer", format!("{}\nleaf={}", line, hex(leaf.der()))),
 		None => s.rep.count("oracle_openssl_unavailable"),
 	}
-	match webpki_chain_ok(leaf.der(), ca_der) {
+	match w_ok {
 		Some(true) => s.rep.count("oracle_webpki_chain_ok"),
 		Some(false) => s.rep.violate(&format!("C03:webpki-chain:{}", tag), "webpki does not accept the chain from the issued certificate to its issuer", format!("{}\nleaf={}", line, hex(leaf.der()))),
 		None => s.rep.count("oracle_webpki_unavailable"),
